@@ -43,6 +43,20 @@ fn g_authdata(src: &mut Src, obs: &mut Obs) -> CaseResult {
         flags |= F::EXTENSION_DATA;
         want_flags |= 0x80;
     }
+    // half of the cases build the same flag set the other way round: as the complement of the
+    // complementary set (the flags byte must only ever carry the four defined bits)
+    if fl & 16 == 0 && src.chance(1, 2) {
+        let via = !(F::all() - flags);
+        if via != flags || via.bits() != want_flags {
+            return Err(Fail::new(
+                "C07:flags:complement",
+                format!("!(all - flags) = 0x{:02x} for flags 0x{:02x}", via.bits(), want_flags),
+                json!({"flags": want_flags}),
+            ));
+        }
+        flags = !(!flags);
+        obs.label("flags:built-by-complement");
+    }
     let mut ti = TInfo::default();
     let ext_model = if mc { types::gen(T::McExt, src, &mut ti) } else { types::gen(T::GaExtOut, src, &mut ti) };
     let count = if ci < 6 { COUNTS[ci] } else { src.word() };
@@ -54,7 +68,27 @@ fn g_authdata(src: &mut Src, obs: &mut Obs) -> CaseResult {
     let seed = src.word();
     let pat = |n: usize, salt: u32| -> Vec<u8> { (0..n).map(|i| ((i as u32).wrapping_mul(2654435761).wrapping_add(seed ^ salt) >> 13) as u8).collect() };
     let id = pat(id_len, 1);
-    let key = pat(KEY_LENS[ki], 2);
+    let mut key = pat(KEY_LENS[ki], 2);
+    // one case in four carries a credential public key that IS a COSE_Key (as real authenticators
+    // emit): P-256, Ed25519, ECDH-ES P-256, P-384, secp256k1, Ed448 - canonical, and occasionally cut
+    // short or padded. The layout rule does not look inside the key.
+    if src.chance(1, 4) {
+        let kv = |k: i64, v: Value| (Value::int(k), v);
+        let (kty, alg, crv, cl, two): (u64, i64, u64, usize, bool) = *src.pick(&[(2, -7, 1, 32, true), (1, -8, 6, 32, false), (2, -25, 1, 32, true), (2, -35, 2, 48, true), (2, -47, 8, 32, true), (1, -8, 7, 57, false)]);
+        let mut m = vec![kv(1, Value::Uint(kty)), kv(3, Value::int(alg)), kv(-1, Value::Uint(crv)), kv(-2, Value::Bytes(src.bytes(cl)))];
+        if two {
+            m.push(kv(-3, Value::Bytes(src.bytes(cl))));
+        }
+        key = refcbor::encode(&Value::Map(m));
+        match src.below(6) {
+            0 => {
+                key.pop();
+            }
+            1 => key.push(0),
+            _ => {}
+        }
+        obs.label("key:cose-key");
+    }
     // in the GetAssertion flavour the optional part can only be supplied as the empty marker
     let ga_marker = att && !mc;
     let att = att && mc;
@@ -414,6 +448,6 @@ pub fn run(ctx: &mut Ctx) {
     ctx.require(&["generic-extension-type", "generic:entries:24", "generic:entries:>24", "generic:entries:1..23"]);
     ctx.require(&[
         "flavour:make_credential", "flavour:get_assertion", "get_assertion:marker-supplied", "attested-present", "extensions-present", "frontier:fits-within-2",
-        "frontier:overflow-within-2", "id>65535", "expect:error", "expect:bytes", "flags:00", "flags:c5",
+        "frontier:overflow-within-2", "id>65535", "expect:error", "expect:bytes", "flags:00", "flags:c5", "key:cose-key", "flags:built-by-complement",
     ]);
 }
